@@ -1,7 +1,7 @@
 (* C12 (record level): k-mer CGR pairs each canonical k-mer's CGR end point with its oligo frequency. *)
 From Coq Require Import NArith ZArith List Reals.
 From Flocq Require Import Core IEEE754.Binary IEEE754.Bits.
-From KT Require Import Gen.Generated Gen.Alphabet Gen.GeneratedFacts Model.Kmer Model.Ops Model.Rows Proof.RowsProof Proof.CgrProof Proof.CgrExact.
+From KT Require Import Gen.Generated Gen.Alphabet Gen.FactsBase Gen.FactCentres Gen.FactCornersOligocgr Gen.FactTableKmer Model.Kmer Model.Ops Model.Rows Proof.RowsProof Proof.CgrProof Proof.CgrExact.
 Import ListNotations.
 Open Scope N_scope.
 
@@ -51,8 +51,13 @@ Qed.
 Example C12_example : m_ocgr 2 4 false [65; 67; 71] = s_ocgr 2 4 false [65; 67; 71].
 Proof. vm_compute. reflexivity. Qed.
 
+(* the walk starts from (S/2, S/2) in the sources too (both copies of cgr_maps) *)
+Theorem C12_centre_in_the_code : cgr_centre_is_half_cgr = true /\ cgr_centre_is_half_oligocgr = true.
+Proof. exact cgr_centres_ok. Qed.
+
 Print Assumptions C12_corners.
 Print Assumptions C12_points_per_column.
 Print Assumptions C12_point_is_cgr_end_point.
 Print Assumptions C12_frequency_is_oligo_entry.
 Print Assumptions C12_kmer_points_are_exact.
+Print Assumptions C12_centre_in_the_code.
